@@ -166,3 +166,210 @@ Definition null_safe (a b : node) : bool := negb (has_null_leaf a && has_content
 (* the diff shows a difference *)
 Definition shows_difference (es : list entry) : bool :=
   existsb (fun e => match e_action e with ASame => false | _ => true end) es.
+
+(* ---- the computable form of [faces_ok]: walk the two documents along their
+   common locations (mapping values by key, sequence elements by position; set
+   members are scalars) and test every facing pair ---- *)
+Definition clash_b (a b : node) : bool := negb (is_null_leaf a && has_content b).
+
+Fixpoint faces_b (a b : node) {struct a} : bool :=
+  clash_b a b && clash_b b a &&
+  match a, b with
+  | NMap _ kvs, NMap _ kvs' =>
+      (fix go (l : list (node * node)) : bool :=
+         match l with
+         | [] => true
+         | kv :: r =>
+             match assoc_key (leaf_value (fst kv)) kvs' with
+             | Some w => faces_b (snd kv) w
+             | None => true
+             end && go r
+         end) kvs
+  | NSeq _ els, NSeq _ els' =>
+      (fix go (l l' : list node) {struct l} : bool :=
+         match l, l' with
+         | x :: r, y :: r' => faces_b x y && go r r'
+         | _, _ => true
+         end) els els'
+  | _, _ => true
+  end.
+
+(* ---- a guard for the same finding that does not depend on which values the
+   comparison pairs up (the synchronised modes pair elements of different
+   positions): no null scalar in the first document, or the second document
+   is flat (none of its values is a container with content); and the two roots
+   do not clash themselves.  Inherited by every pair (child, child). ---- *)
+Definition children (n : node) : list node :=
+  match n with
+  | NLeaf _ _ => []
+  | NMap _ kvs => map snd kvs
+  | NSeq _ els => els
+  | NSet _ els => els
+  end.
+Definition flat (n : node) : bool := forallb (fun c => negb (has_content c)) (children n).
+Definition null_guard (a b : node) : bool := clash_b a b && (negb (has_null_leaf a) || flat b).
+
+(* ---- "differ as data, sequence order disregarded in the synchronised
+   modes": the equivalence a uniform pair of options (--arrays am, --aoh hm)
+   is documented to decide.  How one pair of sequences is read depends, as
+   documented, on the first element of the right-hand list (a list that
+   starts with a hash is an Array-of-Hashes):
+     LPos true   element by element, each pair compared recursively
+     LPos false  element by element, each pair compared whole (--aoh position)
+     LValue      as bags of whole elements (order disregarded)
+     LKey d      as bags of records named by an identity key (--aoh key | deep) ---- *)
+Fixpoint forall2b {A} (f : A -> A -> bool) (l l' : list A) : bool :=
+  match l, l' with
+  | [], [] => true
+  | x :: r, y :: r' => f x y && forall2b f r r'
+  | _, _ => false
+  end.
+
+(* multiset equality of two lists for an equivalence [eq]: every element of
+   the first list strikes out one equal element of the second, none is left *)
+Fixpoint remove_first {A} (f : A -> bool) (l : list A) : option (list A) :=
+  match l with
+  | [] => None
+  | y :: r => if f y then Some r
+              else match remove_first f r with Some r' => Some (y :: r') | None => None end
+  end.
+Fixpoint bag_eqb {A} (eq : A -> A -> bool) (l l' : list A) : bool :=
+  match l with
+  | [] => match l' with [] => true | _ => false end
+  | x :: r => match remove_first (fun y => eq y x) l' with
+              | Some l'' => bag_eqb eq r l''
+              | None => false
+              end
+  end.
+
+Inductive lmode := LPos (deep : bool) | LValue | LKey (deep : bool).
+Definition list_mode (am : arr_opt) (hm : aoh_opt) (rels : list node) : lmode :=
+  let plain := match am with ArrPosition => LPos true | ArrValue => LValue end in
+  match rels with
+  | NMap _ _ :: _ =>
+      match hm with
+      | AohPosition => match am with ArrPosition => LPos false | ArrValue => LValue end
+      | AohDpos => plain
+      | AohValue => LValue
+      | AohKey => LKey false
+      | AohDeep => LKey true
+      end
+  | _ => plain
+  end.
+Definition unkeyed (hm : aoh_opt) : bool := match hm with AohKey | AohDeep => false | _ => true end.
+
+(* identity-key modes: the identity key of a list pair is the first key of the
+   first right-hand record; a record's identity value is the scalar it holds
+   under that key *)
+Definition first_key (els : list node) : option pyval :=
+  match els with NMap _ ((k, _) :: _) :: _ => Some (leaf_value k) | _ => None end.
+Definition id_val (K : pyval) (x : node) : option pyval :=
+  match x with
+  | NMap _ kvs => match assoc_key K kvs with Some (NLeaf _ v) => Some v | _ => None end
+  | _ => None
+  end.
+Definition id_or_none (K : pyval) (x : node) : pyval :=
+  match id_val K x with Some v => v | None => PNone end.
+Definition same_id (K : pyval) (x y : node) : bool :=
+  match id_val K x, id_val K y with Some u, Some v => py_eq u v | _, _ => false end.
+
+Fixpoint equiv (am : arr_opt) (hm : aoh_opt) (a b : node) {struct a} : bool :=
+  match a, b with
+  | NMap i kvs, NMap j kvs' =>
+      tag_eqb (tag i) (tag j) && Nat.eqb (List.length kvs) (List.length kvs') &&
+      (fix go (l : list (node * node)) : bool :=
+         match l with
+         | [] => true
+         | kv :: r =>
+             existsb (fun kv' => py_eq (leaf_value (fst kv)) (leaf_value (fst kv'))
+                                 && equiv am hm (snd kv) (snd kv')) kvs'
+             && go r
+         end) kvs
+  | NSeq i els, NSeq j els' =>
+      tag_eqb (tag i) (tag j) &&
+      match list_mode am hm els' with
+      | LPos true =>
+          (fix go (l l' : list node) {struct l} : bool :=
+             match l, l' with
+             | [], [] => true
+             | x :: r, y :: r' => equiv am hm x y && go r r'
+             | _, _ => false
+             end) els els'
+      | LPos false => forall2b data_eq els els'
+      | LValue => bag_eqb data_eq els els'
+      | LKey d =>
+          (* as many records, and every left record has a right record of the same
+             identity that is equal (key) / equivalent (deep) *)
+          match first_key els' with
+          | Some K =>
+              Nat.eqb (List.length els) (List.length els') &&
+              (fix go (l : list node) : bool :=
+                 match l with
+                 | [] => true
+                 | x :: r =>
+                     existsb (fun y => same_id K x y && (if d then equiv am hm x y else data_eq x y)) els'
+                     && go r
+                 end) els
+          | None => false
+          end
+      end
+  | _, _ => data_eq a b
+  end.
+
+(* ---- guard of finding F4 (identity-key modes): every sequence pair the
+   comparison reads by identity key is well keyed -- all elements of both
+   lists are records holding a scalar under the identity key, with pairwise
+   different identity values -- checked along the pairing the modes define
+   (mapping values by key, positional lists by position, value-synchronised
+   lists by equal elements, keyed lists by identity) ---- *)
+Definition keyed_list (K : pyval) (els : list node) : bool :=
+  forallb (fun x => match id_val K x with Some _ => true | None => false end) els &&
+  nodup_vals (map (id_or_none K) els).
+
+Fixpoint kguard (am : arr_opt) (hm : aoh_opt) (a b : node) {struct a} : bool :=
+  match a, b with
+  | NMap _ kvs, NMap _ kvs' =>
+      (fix go (l : list (node * node)) : bool :=
+         match l with
+         | [] => true
+         | kv :: r =>
+             match assoc_key (leaf_value (fst kv)) kvs' with
+             | Some w => kguard am hm (snd kv) w
+             | None => true
+             end && go r
+         end) kvs
+  | NSeq _ els, NSeq _ els' =>
+      match list_mode am hm els' with
+      | LPos true =>
+          (fix go (l l' : list node) {struct l} : bool :=
+             match l, l' with
+             | x :: r, y :: r' => kguard am hm x y && go r r'
+             | _, _ => true
+             end) els els'
+      | LPos false => true
+      | LValue =>
+          (fix go (l : list node) : bool :=
+             match l with
+             | [] => true
+             | x :: r => forallb (fun y => if data_eq x y then kguard am hm x y else true) els' && go r
+             end) els
+      | LKey d =>
+          match first_key els' with
+          | Some K =>
+              keyed_list K els && keyed_list K els' &&
+              (if d then
+                 (fix go (l : list node) : bool :=
+                    match l with
+                    | [] => true
+                    | x :: r => forallb (fun y => if same_id K x y then kguard am hm x y else true) els' && go r
+                    end) els
+               else true)
+          | None => false
+          end
+      end
+  | _, _ => true
+  end.
+
+(* the configuration selects the same pair of modes at every list *)
+Definition uniform (cfg : dcfg) (am : arr_opt) (hm : aoh_opt) : Prop :=
+  (forall nc, array_diff_mode cfg nc = Ok am) /\ (forall nc, aoh_diff_mode cfg nc = Ok hm).
